@@ -14,11 +14,14 @@
    through their headers, and GameOver computed from those slices as hasRoad does.  All statements hold for every
    per-square hash function `hsq` (the one of the implementation is Refine.hsq).
 
-   Height and Stacks are part of the value in the model: alloc and copyPosition always point them at the object's own
-   arrays and copy the contents; that this is what the code does is covered by the correspondence run and by the
-   address-level oracle of the check, not by these theorems. *)
+   Height and Stacks are part of the value in Alloc.v.  The refined model Alloc2.v (second half of this file) removes that
+   exemption: there Height and Stacks are slice headers into heap arrays like the groups, alloc/copyPosition/copy act on
+   headers and array cells, and MovePreallocated reads the source through the source's headers and writes the
+   destination's cells in place through the destination's headers.  C09_owns2_invariant and C09_value_semantics2 are the
+   two main statements again, now with no part of the position exempt. *)
 From Coq Require Import NArith ZArith List Bool.
 Require Import Board Move GameOver Alloc AllocFacts AllocFacts2 AllocFacts3.
+Require Import Alloc2 Alloc2Facts3 Alloc2Facts5 Alloc2Facts6.
 Import ListNotations.
 
 (* Storage invariant, in every store reachable by admissible operations: every object's WhiteGroups header is a valid
@@ -88,3 +91,88 @@ Theorem C09_clone_aliases_pinned : forall hsq,
   option_map (fun o : observation => snd (fst o)) (observe (run hsq true ops) 6) = Some [3%N].
 Proof. exact clone_aliases_pinned. Qed.
 Print Assumptions C09_clone_aliases_pinned.
+
+(* ================= the refined model: Height and Stacks are heap references too (Alloc2.v) =================
+
+   An object of `run2 hsq ops` carries the scalar fields of the Position, the ids of the three arrays its positionN struct
+   embeds (o2_H: alloc.Height, o2_S: alloc.Stacks, o2_G: alloc.Groups) and FOUR slice headers (array id, offset, length):
+   o2_hh = Position.Height, o2_sh = Position.Stacks, o2_wg / o2_bg = analysis.WhiteGroups / BlackGroups.  `observe2 st h`
+   is what a caller sees of handle h with Height and Stacks READ THROUGH THEIR HEADERS out of the heap.
+   `ops_ok2` = `ops_ok` + board sizes 3..8 (alloc panics otherwise) + a position given to FromSquares has size*size
+   squares + a buffer handed to MovePreallocated was allocated for the board size of the source (copy() stops at the
+   shorter slice; C09_value_semantics2_needs_size is the witness that the statement fails without it; the check's
+   generator and the documented use of MovePreallocated respect it).  `zrun hsq ops` = the board size every object
+   was allocated for.  `owned_by o a` = array a is one of o's three embedded arrays or the array of o's WhiteGroups
+   header. *)
+
+(* Ownership invariant, in every store reachable by admissible operations, for EVERY object (live handle, dead buffer,
+   garbage of a failed move): its Height and Stacks headers are exactly its own embedded arrays in full length; its
+   WhiteGroups header is a valid slice of an array that is neither of those nor the nil array; no array is owned by two
+   objects; and the BlackGroups slice of every live handle lies in the array of its own WhiteGroups header or in an
+   array no object owns (the nil array or one allocated by append: never written again). *)
+Theorem C09_owns2_invariant : forall hsq ops, ops_ok2 hsq ops = true ->
+  let st := run2 hsq ops in let zs := zrun hsq ops in
+  (forall i o, nth_error (s2_objs st) i = Some o ->
+     let n := nsq2 (nth i zs 0%N) in
+     o2_hh o = {| r_arr := o2_H o; r_off := 0; r_len := n |} /\ o2_sh o = {| r_arr := o2_S o; r_off := 0; r_len := n |} /\
+     length (get_arr (s2_arrs st) (o2_H o)) = n /\ length (get_arr (s2_arrs st) (o2_S o)) = n /\
+     (0 < o2_H o)%nat /\ o2_S o = S (o2_H o) /\ o2_G o = S (S (o2_H o)) /\
+     valid (s2_arrs st) (o2_wg o) /\ (0 < r_arr (o2_wg o))%nat /\ r_arr (o2_wg o) <> o2_H o /\ r_arr (o2_wg o) <> o2_S o) /\
+  (forall i j oi oj a, nth_error (s2_objs st) i = Some oi -> nth_error (s2_objs st) j = Some oj ->
+     owned_by oi a -> owned_by oj a -> i = j) /\
+  (forall h v, pval (pure_run hsq ops) h = Some v -> exists o, nth_error (s2_objs st) h = Some o /\ valid (s2_arrs st) (o2_bg o) /\
+     (r_arr (o2_bg o) = r_arr (o2_wg o) \/
+      forall j oj, nth_error (s2_objs st) j = Some oj -> ~ owned_by oj (r_arr (o2_bg o)))).
+Proof. exact owns2_invariant. Qed.
+Print Assumptions C09_owns2_invariant.
+
+(* In the words of the property: two different objects never share an array between any of their Height, Stacks and
+   WhiteGroups headers (the slices an object is written through), and the BlackGroups slice of a live handle never lies
+   in an array another object can be written through. *)
+Corollary C09_no_sharing : forall hsq ops, ops_ok2 hsq ops = true ->
+  let st := run2 hsq ops in
+  (forall i j oi oj a, nth_error (s2_objs st) i = Some oi -> nth_error (s2_objs st) j = Some oj -> i <> j ->
+     In a [r_arr (o2_hh oi); r_arr (o2_sh oi); r_arr (o2_wg oi)] ->
+     In a [r_arr (o2_hh oj); r_arr (o2_sh oj); r_arr (o2_wg oj)] -> False) /\
+  (forall h v j oh oj, pval (pure_run hsq ops) h = Some v -> nth_error (s2_objs st) h = Some oh ->
+     nth_error (s2_objs st) j = Some oj -> h <> j ->
+     In (r_arr (o2_bg oh)) [r_arr (o2_hh oj); r_arr (o2_sh oj); r_arr (o2_wg oj)] -> False).
+Proof. exact no_sharing. Qed.
+Print Assumptions C09_no_sharing.
+
+(* Value semantics with no part of the position exempt: after ANY admissible operation sequence EVERY live handle shows,
+   through its four headers, exactly the observables of the pure value computed for it. *)
+Theorem C09_value_semantics2 : forall hsq ops, ops_ok2 hsq ops = true ->
+  forall h v, pval (pure_run hsq ops) h = Some v -> observe2 (run2 hsq ops) h = Some (observe_pure v).
+Proof. exact value_semantics2. Qed.
+Print Assumptions C09_value_semantics2.
+
+(* The in-place transcription of MovePreallocated against the value-level move (Alloc.amv = Move.move_prealloc, or Pass),
+   for ANY heap: if the destination's Height/Stacks headers nhh/nsh are valid slices of two different arrays that hold a
+   copy of the source's Height/Stacks, the in-place move fails exactly when the value-level move fails, otherwise leaves
+   exactly the successor's Height/Stacks in the destination's arrays and returns its scalars, and changes no array other
+   than those two. *)
+Theorem C09_move_in_place_simulates : forall hsq nhh nsh, r_arr nhh <> r_arr nsh ->
+  forall arrs v phh psh m,
+  AllocFacts.valid arrs phh -> AllocFacts.valid arrs psh -> read_ref arrs phh = Height v -> read_ref arrs psh = Stacks v ->
+  AllocFacts.valid arrs nhh /\ AllocFacts.valid arrs nsh /\ read_ref arrs nhh = Height v /\ read_ref arrs nsh = Stacks v ->
+  let arrs' := fst (move_in_place hsq arrs v phh psh nhh nsh m) in
+  let r := snd (move_in_place hsq arrs v phh psh nhh nsh m) in
+  Alloc2Facts.keeps arrs arrs' (fun a => a = r_arr nhh \/ a = r_arr nsh) /\ length arrs' = length arrs /\
+  match amv hsq v m with
+  | Ok q => exists sc', r = Ok sc' /\
+              (AllocFacts.valid arrs' nhh /\ AllocFacts.valid arrs' nsh /\ read_ref arrs' nhh = Height q /\ read_ref arrs' nsh = Stacks q) /\
+              with_hs sc' (Height q) (Stacks q) = q /\ size q = size v
+  | Err => r = Err
+  | Panic => r = Panic
+  end.
+Proof. exact Alloc2Facts2.mip_sim. Qed.
+Print Assumptions C09_move_in_place_simulates.
+
+(* The size hypothesis is needed: a buffer allocated for another board size (admissible for ops_ok) makes the handle show
+   something else than the pure value through its headers. *)
+Theorem C09_value_semantics2_needs_size : forall hsq,
+  ops_ok hsq wrong_size_ops = true /\ ops_ok2 hsq wrong_size_ops = false /\
+  exists v, pval (pure_run hsq wrong_size_ops) 1 = Some v /\ observe2 (run2 hsq wrong_size_ops) 1 <> Some (observe_pure v).
+Proof. exact value_semantics2_needs_size. Qed.
+Print Assumptions C09_value_semantics2_needs_size.
